@@ -15,6 +15,12 @@ CHECKS = {
  "C13": dict(engine="cbor", design="5/C13", technique="TLC exhaustive enumeration with accepted-set exchange (tla/MC_CborDet: declarative CoreDeterministic vs operational walk) + TLC trace validation of generated nested items (tla/Trace_CborDet)",
    text="Every byte string up to length 4 (quick) / 5 (thorough) over a 30-symbol alphabet and a family of 8-byte-argument heads is classified by TLC; the real cbor.Deterministic must accept exactly TLC's accepted set and terminate on all of them; generated nested items (encoder output, one head lengthened, keys swapped/duplicated, lengths corrupted up to 2^64-1) are judged by the trace spec.",
    note="Trusted: TLC, tla/Cbor.tla. error and panic both count as refusal; a watchdog timeout is a violation."),
+ "C14": dict(engine="mice", design="5/C14", technique="TLC model checking of the MiDec/MiEnc machine (tla/MC_Mice, invariant HonestDecodes) + TLC trace validation with JDK SHA-256 module overrides (tla/Trace_Mice) of real Encode/Decode runs",
+   text="Design level: encode-then-decode yields the payload for all small payloads/record sizes/drafts (TLC). Binding: real mice.Encode output (stream and digest text) must equal byte for byte the draft's recursive definition evaluated by TLC with the JDK hash, for payload lengths 0..3rs+2 exhaustively at small record sizes, boundary sizes up to 16384 and random cases; the real decoder's Read sequence must be the machine's run.",
+   note="Trusted: TLC, JDK SHA-256, tla/MiceCore.tla as transcription of draft-thomson-http-mice-02/-03. Record size >= 1."),
+ "C15": dict(engine="mice", design="5/C15", technique="TLC exhaustive model checking of the MiDec machine under a chunk-supplying adversary with abstract (perfect-hash) crypto (tla/MC_Mice) + replay of exported adversarial behaviours on the real decoder + TLC trace validation with JDK SHA-256 (tla/Trace_Mice) of mutated honest streams",
+   text="TLC checks Authenticated/CleanEof/RefusedEarly in every state of the decoder machine against an adversary choosing every chunk and the size field. Exported behaviours are concretised with real SHA-256 and replayed (verdict and delivered length must match); honest real streams under every truncation, bit flips, suffixes, swaps, size-field and digest edits are run on the real decoder and each Read sequence is judged by the machine, plus the direct invariant 'delivered is a prefix of the committed payload, clean EOF only after all of it'.",
+   note="Trusted: TLC, JDK SHA-256, collision resistance idealised in the abstract model. Caller's limit < 2^31; reads stop at the first error."),
 }
 
 def main():
@@ -27,6 +33,7 @@ def main():
                    "source_commits": hooks, "add_only": True},
          "engines": [
             {"name": "cbor", "path": "tla/Cbor.tla tla/CborMachines.tla tla/MC_Cbor*.tla tla/Trace_Cbor*.tla lib/cbor_checks.py harness/cmd/vh/cbor*.go", "serves_properties": ["C11", "C12", "C13"], "kind_free_text": "TLA+ spec + TLC (exhaustive + trace validation) + Go replay harness"},
+            {"name": "mice", "path": "tla/MiceCore.tla tla/Mice.tla tla/MC_Mice.tla tla/Trace_Mice.tla tla/Crypto.tla tla/overrides lib/mice_checks.py harness/cmd/vh/mice*.go", "serves_properties": ["C14", "C15"], "kind_free_text": "TLA+ spec (abstract + concrete crypto instantiation) + TLC + Go replay harness"},
          ],
          "checks": [], "notes": "See DESIGN.md. Exit 2 of a check means infrastructure failure, never a verdict.", "not_applicable": []}
     for i in ids:
